@@ -103,3 +103,53 @@ pub fn run_poslaw(t: &mut Toks) -> Option<String> {
     if find(&[V::Array(arr.clone()), V::String("\u{1}nope".into())]) != Ok(V::Number(-1.0)) { return Some("viol find-array-absent".into()); }
     Some("ok".into())
 }
+
+/// `mathlaw …` (C17): conversion and maths builtins against their definitions, evaluated on the crate
+pub fn run_mathlaw(t: &mut Toks) -> Option<String> {
+    use slac::stdlib::{common, math, string};
+    let numr = |r: Result<V, slac::stdlib::NativeError>| match r { Ok(V::Number(x)) => Some(x), _ => None };
+    let same = |a: Option<f64>, b: f64| a.map_or(false, |a| a.to_bits() == b.to_bits() || (a.is_nan() && b.is_nan()));
+    match t.next()? {
+        "num" => {
+            let x = f64::from_bits(u64::from_str_radix(t.next()?, 16).ok()?);
+            let y = f64::from_bits(u64::from_str_radix(t.next()?, 16).ok()?);
+            let a = [V::Number(x)];
+            let checks: [(&str, bool); 16] = [
+                ("abs", same(numr(math::abs(&a)), x.abs())), ("round", same(numr(math::round(&a)), x.round())), ("trunc", same(numr(math::trunc(&a)), x.trunc())),
+                ("frac", same(numr(math::frac(&a)), x.fract())), ("sqrt", same(numr(math::sqrt(&a)), x.sqrt())), ("exp", same(numr(math::exp(&a)), x.exp())),
+                ("ln", same(numr(math::ln(&a)), x.ln())), ("sin", same(numr(math::sin(&a)), x.sin())), ("cos", same(numr(math::cos(&a)), x.cos())),
+                ("arc_tan", same(numr(math::arc_tan(&a)), x.atan())), ("pow2", same(numr(math::pow(&a)), x.powf(2.0))), ("pow", same(numr(math::pow(&[V::Number(x), V::Number(y)])), x.powf(y))),
+                ("float_str", match common::str(&a) { Ok(sv) => same(numr(common::float(&[sv])), x), _ => false }),
+                ("int", same(numr(common::int(&a)), x.trunc())),
+                ("trunc_frac", !x.is_finite() || match (numr(math::trunc(&a)), numr(math::frac(&a))) { (Some(tr), Some(fr)) => tr + fr == x, _ => false }),
+                ("round_half_away", !x.is_finite() || x.abs() >= 4503599627370496.0 || { let r = numr(math::round(&a)).unwrap_or(f64::NAN); let fl = x.abs().floor(); let expect = if x.abs() - fl >= 0.5 { fl + 1.0 } else { fl }; r.abs() == expect && (r == 0.0 || r.is_sign_negative() == x.is_sign_negative()) }),
+            ];
+            for (n, ok) in checks { if !ok { return Some(format!("viol {}", n)); } }
+            Some("ok num".into())
+        }
+        "cp" => {
+            let from: u32 = t.next()?.parse().ok()?; let cnt: u32 = t.next()?.parse().ok()?;
+            for cp in from..from + cnt {
+                let cr = string::chr(&[V::Number(cp as f64)]);
+                if cp <= 127 { let c = char::from_u32(cp)?;
+                    if cr != Ok(V::String(c.to_string())) { return Some(format!("viol chr {}", cp)); }
+                    if string::ord(&[V::String(c.to_string())]) != Ok(V::Number(cp as f64)) { return Some(format!("viol ord {}", cp)); } }
+                else { if cr.is_ok() { return Some(format!("viol chr-accepts {}", cp)); }
+                    if let Some(c) = char::from_u32(cp) { if string::ord(&[V::String(c.to_string())]).is_ok() { return Some(format!("viol ord-accepts {}", cp)); } } }
+            }
+            if string::ord(&[V::String(String::new())]).is_ok() || string::ord(&[V::String("ab".into())]).is_ok() || string::chr(&[V::Number(-1.0)]).is_ok() || string::chr(&[V::Number(f64::NAN)]).is_ok() { return Some("viol rejects".into()); }
+            Some("ok cp".into())
+        }
+        "int" => {
+            let n: i64 = t.next()?.parse().ok()?;
+            let x = n as f64; if x as i64 != n { return Some("ok int-skip".into()); }      // not representable: nothing to check
+            let ev = math::even(&[V::Number(x)]); let od = math::odd(&[V::Number(x)]);
+            if ev != Ok(V::Boolean(n % 2 == 0)) { return Some(format!("viol even {}", n)); }
+            if od != Ok(V::Boolean(n % 2 != 0)) { return Some(format!("viol odd {}", n)); }
+            if n >= 0 && math::int_to_hex(&[V::Number(x)]) != Ok(V::String(format!("{:X}", n))) { return Some(format!("viol hex {}", n)); }
+            if n >= 0 && math::int_to_hex(&[V::Number(x + 0.5)]) != Ok(V::String(format!("{:X}", (x + 0.5).trunc() as i64))) { return Some(format!("viol hex-trunc {}", n)); }
+            Some("ok int".into())
+        }
+        _ => None,
+    }
+}
